@@ -63,6 +63,9 @@ class Scores(Suite):
             cases.append({"s": s, "D": D, "one": rng.random() < 0.5, "scale": FINE})
         cases.append({"s": [[0.0, 1.0, 0.5 + 2.0 ** -17, 0.0, 1.0, 0.5 + 2.0 ** -17], [0.5 + 2.0 ** -17] * 2 + [0.0] + [0.5 + 2.0 ** -17] * 2 + [0.0]],
                       "D": [[[1], [2]], [[2], [1]]], "one": False, "scale": FINE})
+        for c in cases:
+            if rng.random() < 0.2:
+                c["seasoned"] = True      # the algorithm objects have served before the judged call (algos.seasoned)
         return cases
 
     def run(self, case):
@@ -72,7 +75,10 @@ class Scores(Suite):
         out = {"D": gen.observe(ds), "runs": []}
         for aid, mkalg, lazy in ALGS:
             try:
-                cons = mkalg().compute_consensus_rankings(ds, sc, case["one"])
+                alg = mkalg()
+                if case.get("seasoned"):
+                    seasoned(alg, case["D"], case["s"])
+                cons = alg.compute_consensus_rankings(ds, sc, case["one"])
             except Exception as e:
                 if type(e).__name__ in ("IncompatibleArgumentsException", "ScoringSchemeNotHandledException",
                                         "InompleteRankingsIncompatibleWithScoringSchemeException"):
@@ -114,6 +120,7 @@ class Scores(Suite):
         acc["runs"] = acc.get("runs", 0) + len(out["runs"])
         acc["exceptions"] = acc.get("exceptions", 0) + sum(1 for r in out["runs"] if "err" in r)
         acc["lazy_scores"] = acc.get("lazy_scores", 0) + sum(1 for r in out["runs"] if r.get("lazy"))
+        acc["seasoned_algorithm_objects"] = acc.get("seasoned_algorithm_objects", 0) + int(bool(case.get("seasoned")))
         acc["several_rankings"] = acc.get("several_rankings", 0) + sum(1 for r in out["runs"] if len(r.get("cons", [])) > 1)
         acc["one=" + str(case["one"])] = acc.get("one=" + str(case["one"]), 0) + 1
 
